@@ -88,6 +88,8 @@ def generate(tier, seed):
         a, b_, c = rnd.choice(pool), rnd.choice(pool), rnd.choice(pool)
         f = (rnd.choice(BIN), (rnd.choice(BIN), a, neg(b_)), (rnd.choice(['forall', 'exists']), (var('X'),), c))
         items.append({'family': 'seeded-depth3+', 'formula': f})
+    # the numeral kernel for every isize (MIR -> 64-bit bit-vector SMT), see av/mirkernel.py
+    items.append({'family': 'numeral-kernel-all-isize', 'kernel': True})
     # formulas anthem actually puts into problems
     for l, r in (('p(X) :- q(X), not r(X + 1).', 'p(X) :- q(X), X != a.'), ('p(1..3, a).', '{p(X, Y)} :- q(X / 2, Y).'),
                  ('p :- q, not s. s :- 1 < 2.', ':- p, #sup > X, q(X).')):
@@ -243,8 +245,28 @@ def check_formula(b, item, f, text_, fam):
     return [r]
 
 
+def check_kernel_item(item):
+    from . import mirkernel
+    res = mirkernel.check_kernel()
+    r = {'family': item['family'], 'key': 'numeral-kernel', 'input': 'Format(&IntegerTerm::Numeral(n)) for every n: isize (MIR slice)',
+         'obligation': 'forall n in [-2^63, 2^63): the rendered text denotes n ($uminus(d) = -d; Display of usize/isize prints the value); '
+                       '64-bit wrapping semantics of the release profile',
+         'nontrivial': True, 'twin': item.get('twin', False), 'ms': res.get('ms'), 'output': res.get('detail')}
+    if res['verdict'] == 'not-applicable':
+        r.update(verdict='observation', detail='numeral kernel check not applicable to the current code: %s' % res.get('detail'))
+    elif res['verdict'] == 'sat':
+        n = res['counterexample']
+        r.update(verdict='sat', signature='tptp-numeral-kernel', detail='n = %d is rendered as text that does not denote n (%s)' % (n, res.get('detail')),
+                 replay={'kernel_counterexample': n, 'smt2': res.get('smt2')})
+    else:
+        r.update(verdict=res['verdict'], detail=res.get('detail'))
+    return [r]
+
+
 def check_item(item):
     b = bridge_mod.get()
+    if item.get('kernel'):
+        return check_kernel_item(item)
     if 'strong' in item:
         from .tasks import parse_problems
         l, r_ = item['strong']
@@ -278,6 +300,25 @@ def twins(tier, seed):
 
 
 def replay(r):
+    rp = r.get('replay') or {}
+    if 'kernel_counterexample' in rp:
+        # replay against the real build: render q(n) in a fresh bridge process (dev profile) and read the text back
+        from .checks_common import fresh_bridge_call
+        n = rp['kernel_counterexample']
+        try:
+            text_ = str(fresh_bridge_call(('tptp_formula', atom('q', num(n))))[0])
+        except bridge_mod.BridgePanic as e:
+            return True, 'the dev-profile build panics on n=%d: %s (release wraps, as modelled)' % (n, e)
+        try:
+            ast = tff.parse_formula(text_)
+            arg = ast[1][2][0]           # q(f__integer__(<numeral>))
+            inner = arg[2][0]
+            val = inner[1] if inner[0] == 'num' else (-inner[2][0][1] if inner[1] == '$uminus' and inner[2][0][0] == 'num' else None)
+        except Exception:
+            val = None
+        if val == n:
+            return False, 'the dev-profile build renders n=%d correctly as %s' % (n, text_)
+        return True, 'rendered as %s' % text_
     return generic_replay(r)
 
 
